@@ -116,3 +116,77 @@ Lemma calc_min_max_images : forall s,
   calc_min s = phys_value s (fst (calculate_raw_range (sc_size s) (sc_signed s))) /\
   calc_max s = phys_value s (snd (calculate_raw_range (sc_size s) (sc_signed s))).
 Proof. intros s. unfold calc_min, calc_max, phys_value, raw2phys. split; apply dadd_comm. Qed.
+
+(* the property for a constructed signal of width 1..64 (factor 0 included: the converter stores 1) *)
+Lemma signal_roundtrip : forall size signed factor offset items raw,
+  let s := mk_signal size signed factor offset items in
+  let f := sc_factor s in let o := sc_offset s in let e := Z.min (de f) (de o) in
+  1 <= size <= 64 ->
+  fst (calculate_raw_range size signed) <= raw <= snd (calculate_raw_range size signed) ->
+  fits28 (raw * dm f) -> fits28 (raw * dnum f e + dnum o e) ->
+  (e <= de (phys_value s raw) /\ dnum (phys_value s raw) e = raw * dnum f e + dnum o e) /\
+  phys2raw_num s (phys_value s raw) = Some raw.
+Proof.
+  intros size signed factor offset items raw s f o e Hs Hr H1 H2.
+  split.
+  - destruct (raw2phys_exact f o raw H1 H2) as [A [B _]]. split; assumption.
+  - unfold phys2raw_num, phys_value. apply phys2raw_raw2phys; try assumption.
+    + unfold f, s, mk_signal. cbn [sc_factor]. apply factor_zero_becomes_one.
+    + eapply raw_in_range_ndigits; eassumption.
+Qed.
+
+Lemma default_limits_exact : forall s,
+  let f := sc_factor s in let o := sc_offset s in let e := Z.min (de f) (de o) in
+  let lo := fst (calculate_raw_range (sc_size s) (sc_signed s)) in
+  let hi := snd (calculate_raw_range (sc_size s) (sc_signed s)) in
+  (fits28 (lo * dm f) -> fits28 (lo * dnum f e + dnum o e) ->
+     e <= de (calc_min s) /\ dnum (calc_min s) e = lo * dnum f e + dnum o e) /\
+  (fits28 (hi * dm f) -> fits28 (hi * dnum f e + dnum o e) ->
+     e <= de (calc_max s) /\ dnum (calc_max s) e = hi * dnum f e + dnum o e).
+Proof.
+  intros s f o e lo hi. destruct (calc_min_max_images s) as [Hmin Hmax]. rewrite Hmin, Hmax.
+  unfold phys_value. fold f o lo hi. split; intros H1 H2.
+  - destruct (raw2phys_exact f o lo H1 H2) as [A [B _]]. split; assumption.
+  - destruct (raw2phys_exact f o hi H1 H2) as [A [B _]]. split; assumption.
+Qed.
+
+(* witnesses that the envelope is needed *)
+Lemma not_fits28_witness : ~ fits28 1000000000000000000000000000007.
+Proof.
+  intros [c [j [Hj [H Hc]]]]. destruct (Z.eq_dec j 0) as [->|Hne].
+  - rewrite Z.pow_0_r in H. lia.
+  - replace j with ((j - 1) + 1) in H by lia. rewrite p10_succ in H by lia.
+    set (z := 10 ^ (j - 1)) in *. assert (1000000000000000000000000000007 = 10 * (c * z)) by lia. lia.
+Qed.
+
+Lemma roundtrip_refuted_beyond_28 :
+  exists f o raw, let e := Z.min (de f) (de o) in
+    dm f <> 0 /\ 0 <= raw < 2 ^ 8 /\ fits28 (raw * dm f) /\
+    ~ fits28 (raw * dnum f e + dnum o e) /\
+    phys2raw f o (raw2phys f o raw) <> Some raw.
+Proof.
+  exists (mkDec 1 (-30)), (mkDec 1 0), 7. cbn zeta. split; [cbn [dm]; lia|]. split; [lia|].
+  split; [apply fits28_of_ndigits; vm_compute; discriminate|].
+  split.
+  - assert (E : 7 * dnum (mkDec 1 (-30)) (Z.min (de (mkDec 1 (-30))) (de (mkDec 1 0))) +
+                dnum (mkDec 1 0) (Z.min (de (mkDec 1 (-30))) (de (mkDec 1 0))) = 1000000000000000000000000000007)
+      by (vm_compute; reflexivity).
+    rewrite E. exact not_fits28_witness.
+  - assert (E : phys2raw (mkDec 1 (-30)) (mkDec 1 0) (raw2phys (mkDec 1 (-30)) (mkDec 1 0) 7) = Some 0)
+      by (vm_compute; reflexivity).
+    rewrite E. discriminate.
+Qed.
+
+Lemma roundtrip_refuted_wide_raw :
+  exists f o raw, let e := Z.min (de f) (de o) in
+    dm f <> 0 /\ ndigits raw = 29 /\ fits28 (raw * dm f) /\ fits28 (raw * dnum f e + dnum o e) /\
+    phys2raw f o (raw2phys f o raw) <> Some raw.
+Proof.
+  exists (mkDec 5 (-1)), (mkDec 0 0), (2 * (10 ^ 28 - 1)). cbn zeta. split; [cbn; lia|]. split; [vm_compute; reflexivity|].
+  assert (F : fits28 (2 * (10 ^ 28 - 1) * 5)).
+  { exists (10 ^ 28 - 1), 1. split; [lia|]. split; [vm_compute; reflexivity | vm_compute; reflexivity]. }
+  split; [exact F|]. split.
+  - unfold dnum. cbn [dm de]. replace (Z.min (-1) 0) with (-1) by reflexivity.
+    replace (-1 - -1) with 0 by lia. rewrite Z.pow_0_r, Z.mul_1_r, Z.mul_0_l, Z.add_0_r. exact F.
+  - vm_compute. discriminate.
+Qed.
